@@ -146,6 +146,15 @@ def part_size(L, tier, log):
 
 # ------------------------------------------------------------------------------------------------ part W
 
+def mk_code(v):
+    o = Obj("error::codes::Code")
+    o.fields[(None, 0)] = Cell(v)
+    return o
+
+
+SITE_INLINE = [(r" as CloseStream::handle_quic_stream_error$", r"^CloseStream::handle_quic_stream_error$")]
+
+
 def site_contracts(max_polls):
     def c_settings(ex, st, key, argv, dest_ty, raw):
         def ap(ex, st, a):
@@ -191,10 +200,18 @@ def site_contracts(max_polls):
                 st.effects.append((tag, "ok"))
                 return ex.make_enum(dest_ty, "Ready", [ex.make_enum(inner, "Ok", [Obj(C.payload_type(inner, "Ok") or "ok") if okty is None else okty])])
 
-            def err(ex, st, a):
-                st.effects.append((tag, "err"))
-                return ex.make_enum(dest_ty, "Ready", [ex.make_enum(inner, "Err", [Obj("quic::StreamErrorIncoming")])])
-            cases = [Case(None, ok), Case(z3.BoolVal(True), err)]
+            def err(kind):
+                def ap(ex, st, a):
+                    st.effects.append((tag, "err"))
+                    st.world["transport_error"] = kind
+                    if kind == "StreamTerminated":
+                        code = z3.BitVec("peer_stop_code", 64)
+                        e = ex.make_enum("quic::StreamErrorIncoming", kind, [code])
+                    else:
+                        e = ex.make_enum("quic::StreamErrorIncoming", kind, [Obj("quic::ConnectionErrorIncoming" if kind == "ConnectionErrorIncoming" else "Box<dyn Error>")])
+                    return ex.make_enum(dest_ty, "Ready", [ex.make_enum(inner, "Err", [e])])
+                return ap
+            cases = [Case(None, ok)] + [Case(z3.BoolVal(True), err(k)) for k in ("StreamTerminated", "ConnectionErrorIncoming", "Unknown")]
             if st.world["poll"] + 1 < max_polls:
                 cases.append(Case(z3.BoolVal(True), pend))
             return cases
@@ -210,6 +227,12 @@ def site_contracts(max_polls):
         def ap(ex, st, a):
             st.effects.append(("quic_stream_error",))
             return ex.make_enum(SE, "RemoteTerminate", [Obj("code")])
+        return [Case(None, ap)]
+
+    def c_set_conn_error(ex, st, key, argv, dest_ty, raw):
+        def ap(ex, st, a):
+            st.effects.append(("connection_error",))
+            return Obj("error::internal_error::ErrorOrigin")
         return [Case(None, ap)]
 
     def c_closing(ex, st, key, argv, dest_ty, raw):
@@ -249,7 +272,9 @@ def site_contracts(max_polls):
         (r"^Header::response$", c_header_response),
         (r"^Header::trailer$|into_parts$|^BytesMut::new$|^BytesMut::freeze$|^futures_util::future::poll_fn$|^poll_fn$|^HeaderMap::new$", C.c_opaque),
         (r"handle_connection_error_on_stream$", c_conn_error),
-        (r"handle_quic_stream_error$", c_stream_error),
+        (r"ConnectionState::set_conn_error_and_wake$", c_set_conn_error),
+        (r"^convert_to_connection_error$", C.c_opaque),
+        (r"^Code as From::from$", lambda ex, st, key, argv, dest_ty, raw: [Case(None, lambda ex, st, a: mk_code(a[0]))]),
         (r"^connection::RequestStream::new$|^FrameStream::new$|^BufRecvStream::new$|^Arc as Clone::clone$", C.c_opaque),
         (r"ToString::to_string$", C.c_opaque),
     ] + c08.base_contracts()
@@ -268,7 +293,7 @@ def limit_field_index(ex, fn_pat, name):
 def send_site(L, log, name, fn_pat, co_ty, upvars, max_polls=4):
     """Poll a send coroutine to completion. Returns list of (state, final Poll value)."""
     con = site_contracts(max_polls)
-    ex = E.make_executor(L, [], con, max_unroll=3)
+    ex = E.make_executor(L, SITE_INLINE, con, max_unroll=3)
     # the limit is read through `(*settings).max_field_section_size`: find the field index in config::Settings from the MIR
     idx = limit_field_index(ex, fn_pat, name)
     st = State()
@@ -316,6 +341,25 @@ def judge_site(ex, finals, name, viols, wit):
         kind = None
         if err is not None and z3.is_bv_value(err.discr):
             kind = ex.enums.name_of(SE, err.discr.as_long())
+        te = s.world.get("transport_error")
+        if te is not None:
+            # the transport refused (C07, send side): the peer's STOP_SENDING is a fault of this request only
+            conn = any(e[0] == "connection_error" for e in s.effects)
+            if te == "StreamTerminated":
+                code = E.get_field(err, ("RemoteTerminate", 0), (None, 0)) if kind == "RemoteTerminate" else None
+                q += 1
+                if conn or kind != "RemoteTerminate" or code is None or ex.feasible(s, code != z3.BitVec("peer_stop_code", 64)):
+                    viols.append({"key": f"c07.send.{name}.stop_sending_not_stream_scoped",
+                                  "what": f"{name}: the peer's STOP_SENDING / stream termination seen by a write is not StreamError::RemoteTerminate with the peer's code, or raises a connection error",
+                                  "model": {"outcome": kind, "connection_error": conn}})
+                else:
+                    wit[f"W.{name}.stop_sending_stream_scoped"] = True
+            elif te == "ConnectionErrorIncoming":
+                if not conn or kind != "ConnectionError":
+                    viols.append({"key": f"c07.send.{name}.connection_error_not_raised", "what": f"{name}: a connection error seen by a write is not raised as the connection's error", "model": {"outcome": kind}})
+            elif kind != "Undefined" or conn:
+                viols.append({"key": f"c07.send.{name}.transport_specific_error_changed", "what": f"{name}: a transport-specific write error is not passed through as Undefined", "model": {"outcome": kind}})
+            continue
         if writes:
             wit[f"W.{name}.written"] = True
             wpoll = writes[0][1]
@@ -374,6 +418,7 @@ def part_sites(L, tier, log):
     for name, pat, co_ty, upvars in sites:
         wit[f"W.{name}.written"] = False
         wit[f"W.{name}.refused"] = False
+        wit[f"W.{name}.stop_sending_stream_scoped"] = False
         ex, finals = send_site(L, log, name, pat, co_ty, upvars, max_polls=3 if tier == "quick" else 4)
         queries += judge_site(ex, finals, name, viols, wit) + ex.queries
         nstates += len(finals)
@@ -400,7 +445,7 @@ def part_431(L, tier, log):
         (r"^Response::builder$|^http::response::Builder::body$|^Result::expect$|^Response::new$|status_mut$", C.c_opaque),
         (r" as IntoFuture::into_future$", C.c_identity),
     ] + site_contracts(max_polls)
-    ex = E.make_executor(L, [], con, max_unroll=3)
+    ex = E.make_executor(L, SITE_INLINE, con, max_unroll=3)
     st = State()
     size = z3.BitVec("cancel_size", 64)
     mx = z3.BitVec("server_limit", 64)
@@ -440,7 +485,7 @@ def part_431(L, tier, log):
         if res.discr.as_long() == 0:
             viols.append({"key": "c10.recv.resolve_oversize.accepted", "what": "an oversized request is handed to the application", "model": {}})
             continue
-        if any(e[0] == "connection_error" for e in s.effects) and rsize is not None:
+        if any(e[0] == "connection_error" for e in s.effects) and rsize is not None and s.world.get("transport_error") != "ConnectionErrorIncoming":
             viols.append({"key": "c10.recv.resolve_oversize.connection_error", "what": "an oversized request raises a connection error", "model": {}})
         err = E.get_field(res, ("Err", 0))
         kind = ex.enums.name_of(SE, err.discr.as_long()) if z3.is_bv_value(err.discr) else None
